@@ -289,7 +289,31 @@ def build_T22(tree):
     conj = ast.BoolOp(op=ast.And(), values=list(nb.value.args))
     texts.append(translate_block([_ret_expr(conj)], 'castFloatNonBoolean', [('unique_values', 'rat')], {},
                                  doc='float input for BINARY / LABELMAP, per value: is it a genuine fraction (refused)?'))
-    return '\n\n'.join(texts), span_sha([fast, stk, ov, rng, nb])
+    # (6) floats for BINARY / LABELMAP: a binary 2-D/3-D mask is label 1, which must be described (fix f08a76b)
+    lab = _one([n for n in ast.walk(fn) if isinstance(n, ast.If) and 'unique_values[-1]' in ast.unparse(n.test)
+                and len(n.body) == 1 and isinstance(n.body[0], ast.Raise)], 'float label-1 refusal')
+    blk = [ast.parse(ast.unparse(lab)).body[0], ast.parse('return 0').body[0]]
+    texts.append(translate_block(blk, 'castFloatLabelGuard', [],
+                                 {'pixel_array.ndim': ('int', 'ndim'), 'unique_values[-1]': ('rat', 'lastValue'),
+                                  '1 not in segment_numbers': ('bool', 'oneUndescribed')},
+                                 doc='float 0/1 input for BINARY / LABELMAP: refusal of a label-map style mask holding the '
+                                     'undescribed label 1 (`lastValue` = the largest value)'))
+    # (7) fractions: a 2-D/3-D array is a single segment (fix d437594)
+    sev = _one([n for n in ast.walk(fn) if isinstance(n, ast.If) and _norm(n.test).startswith('pixel_array.ndim==3and')
+                and 'number_of_segments' in ast.unparse(n.test) and len(n.body) == 1 and isinstance(n.body[0], ast.Raise)],
+               'several-fractional-segments refusal')
+    blk = [ast.parse(ast.unparse(sev)).body[0], ast.parse('return 0').body[0]]
+    texts.append(translate_block(blk, 'castFloatFractionGuard', [('number_of_segments', 'int')],
+                                 {'pixel_array.ndim': ('int', 'ndim')},
+                                 doc='float input for FRACTIONAL: refusal of a 2-D/3-D array with several described segments'))
+    # ... and where the two sit: (6) after the cast of the BINARY/LABELMAP arm, (7) first statement of the FRACTIONAL arm
+    arm = _one([n for n in ast.walk(fn) if isinstance(n, ast.If) and _norm(n.test).startswith('segmentation_typein(')
+                and any(s is lab for s in n.body)], 'BINARY/LABELMAP arm of the float branch')
+    pos = [i for i, s in enumerate(arm.body) if s is lab][0]
+    if pos == 0 or _norm(arm.body[pos - 1]) != 'pixel_array=pixel_array.astype(dtype)' or not arm.orelse or arm.orelse[0] is not sev:
+        raise Unsupported('float branch: the label-1 refusal no longer follows the cast / the fraction refusal no longer '
+                          'opens the FRACTIONAL arm')
+    return '\n\n'.join(texts), span_sha([fast, stk, ov, rng, nb, lab, sev])
 
 
 def build_T23(tree):
